@@ -151,8 +151,21 @@ Lemma time_T_ext_witness :
   py_parse_iso [84; 49; 50; 58; 50; 55; 58; 51; 56] = Ok (mkp 3 0 0 0 12 27 38 0 None).
 Proof. vm_compute. split; reflexivity. Qed.
 
+(* finding rs-bare-hhmmss-rejected (still open): a bare six-digit basic time is a time for the pure-Python parser, an error for the compiled one *)
 Lemma time_bare_witness :
   rs_parse_iso [50; 51; 53; 57; 53; 57] = Raise E_ValueError /\
-  py_parse_iso [50; 51; 53; 57; 53; 57] = Ok (mkp 3 0 0 0 23 59 59 0 None) /\
-  py_parse_iso [48; 49; 50; 51; 52; 53] = Ok (mkp 3 0 0 0 12 34 5 0 None).
+  py_parse_iso [50; 51; 53; 57; 53; 57] = Ok (mkp 3 0 0 0 23 59 59 0 None).
+Proof. vm_compute. repeat split; reflexivity. Qed.
+
+(* finding py-hhmmss-leading-zero repaired (hhmmss = f"{year:04d}{month:02d}"): bare hhmmss texts with an hour below 10 parse to that
+   time with the pure-Python parser — end to end (regex match of the generated ISO8601_DT + post-match code) on the former failing inputs
+   and on the corners of the range *)
+(* the former witnesses: "012345" came back as 12:34:05, "001530" and "000000" raised *)
+Lemma py_bare_hhmmss_witnesses :
+  py_parse_iso [48; 49; 50; 51; 52; 53] = Ok (mkp 3 0 0 0 1 23 45 0 None) /\
+  py_parse_iso [48; 48; 49; 53; 51; 48] = Ok (mkp 3 0 0 0 0 15 30 0 None) /\
+  py_parse_iso [48; 48; 48; 48; 48; 48] = Ok (mkp 3 0 0 0 0 0 0 0 None) /\
+  py_parse_iso [48; 57; 53; 57; 53; 57] = Ok (mkp 3 0 0 0 9 59 59 0 None) /\
+  py_parse_iso [48; 48; 48; 48; 48; 49] = Ok (mkp 3 0 0 0 0 0 1 0 None) /\
+  py_parse_iso [49; 48; 48; 48; 48; 48] = Ok (mkp 3 0 0 0 10 0 0 0 None).
 Proof. vm_compute. repeat split; reflexivity. Qed.
